@@ -107,7 +107,7 @@ impl KvSoundTrait for KvDc {
 	fn finished(&self) -> bool { false }
 }
 
-// @h prop=C15,C08,C11 tier=quick kind=main timeout=600
+// @h prop=C15,C08,C11,C01 tier=quick kind=main timeout=600
 // @bounds real Track::process of a spatial track (strength 0, no attenuation) with a DC probe sound over a real Listeners storage of capacity 1: the listener id never resolved, resolves, or is STALE (its slot reused by a newer listener) (symbolic); optionally nested in another spatial track whose listener does not exist; one 1-frame chunk
 // @funcs Track::process (spatialization branch), Info::listener_info, Arena::get
 // @catches a spatial track whose listener does not exist (never did, dropped, or slot reused) still producing sound; a nested spatial track spatialised against its parent's listener instead of its own
